@@ -3,6 +3,7 @@ import math
 from cubed.array_api.data_type_functions import isdtype
 from cubed.array_api.dtypes import (
     _integer_dtypes,
+    _numeric_dtypes,
     _real_numeric_dtypes,
     _upcast_integral_dtypes,
 )
@@ -98,6 +99,8 @@ def mean(x, /, *, axis=None, keepdims=False, split_every=None):
     # This implementation uses a Zarr group of two arrays to store a
     # pair of fields needed to keep per-chunk counts and totals for computing
     # the mean.
+    if x.dtype not in _numeric_dtypes:
+        raise TypeError("Only numeric dtypes are allowed in mean")
     if x.dtype in _integer_dtypes:
         # From the spec: "if the input array x has an integer data type,
         # the returned array must have the default real-valued floating-point data type"
